@@ -413,4 +413,42 @@ def stepGated (N : Nat) (S : Session) : Step → Session
     else { S with exp := E }
   | st => step N S st
 
+/-! ## components instantiated AFTER a reload (the next DoWhile iterations of a restarted experiment)
+
+The experiment that created the instance keeps the *package* description in memory (`_unreplicated` with the raw
+blueprints of every platform); an experiment loaded from the instance directory holds the *stored* description
+(`flatten`: blueprints of the default and the selected platform folded into `default`, interpolated in the global /
+stage scope).  Both instantiate the next iteration the same way (`addIteration`) and store `flatComp` of the new
+components.  The stored description is equivalent to the package for NEW components only as far as the folded
+blueprints are: `bpClosed` and `bpOrderFree` are the (decidable) conditions under which they are. -/
+
+/-- the blueprint values that a component of stage `s` inherits mention no variable that is defined in the scope in
+which `instance()` interpolates them (literal settings: environment names, resource requests, …) -/
+def bpClosed (N : Nat) (L : Doc) (P : Name) (s : Nat) : Bool :=
+  dictClosed (gvars N L P) (bpg0 L P) && dictClosed (bpsCtx N L P s) (bps0 L P s)
+
+/-- no option path is set BOTH by the default blueprint of stage `s` and by the global blueprint of the selected
+platform `P ≠ default`: the running experiment layers default-global < default-stage < platform-global <
+platform-stage (`layeredOpts`), the stored description (default+platform global) < (default+platform stage) -/
+def bpOrderFree (L : Doc) (P : Name) (s : Nat) : Bool :=
+  P == 0 || ((layerOf L.bps 0).stage s).all (fun e => !hasKey (layerOf L.bps P).glob e.1)
+
+/-- two option dictionaries answer every lookup alike (association lists: the order of the entries is not part of
+the description) -/
+def sameLookups (a b : Dict) : Bool := (a ++ b).all fun e => get? a e.1 == get? b e.1
+
+/-- two stored components are the same component: identity, variables, override blocks, and every option lookup -/
+def sameComp (a b : Comp) : Bool :=
+  a.stage == b.stage && a.name == b.name && a.isDoc == b.isDoc && a.vars == b.vars && a.ovr == b.ovr
+    && sameLookups a.opts b.opts
+
+/-- the hypotheses of `C07.iteration_after_reload_like_control` for a list of new components -/
+def newCompsOk (N : Nat) (L : Doc) (P : Name) (cs : List Comp) : Bool :=
+  cs.all fun c => !c.isDoc && (L.comps.map (·.stage)).contains c.stage && bpClosed N L P c.stage
+    && bpOrderFree L P c.stage
+
+/-- NOT the code that exists: a store that leaves the blueprints out of the stored description ("the components
+already have them folded in") — modelled for `Witness.C07` -/
+def storeNoBlueprints (N : Nat) (E : Exp) : Doc := { store N E with bps := [] }
+
 end St4sd.Instance
